@@ -57,7 +57,7 @@ def gen_record(rng):
     def maybe(k, f, p=0.9):
         if rng.random() < p:
             r[k] = f()
-    maybe("n", lambda: rng.choice((0, 1, -1, 2, 3.5, -2.25, 10, 100, 7, 1e3, 0.5)))
+    maybe("n", lambda: rng.choice((0, 1, -1, 2, 3.5, -2.25, 10, 100, 7, 1e3, 0.5, 0.49999999999999994, -0.49999999999999994, 2.5, -2.5, 0.5000000000000001)))
     maybe("i", lambda: rng.choice((0, 1, 2, 3, 4, 5, 10)))
     maybe("s", lambda: rng.choice(WORDS))
     maybe("u", lambda: rng.choice(NONASCII))
@@ -73,7 +73,7 @@ def gen_record(rng):
     maybe("obj", lambda: {k: rng.choice((0, 1, 2, 3, -1, 5)) for k in rng.sample(["a", "b", "c", "d", "k1", "z"], rng.choice((0, 1, 2, 3, 4)))})
     maybe("nest", lambda: {"a": {"b": [1, {"c": rng.choice(("deep", 1, None))}]}, "k": rng.choice(WORDS)}, 0.7)
     maybe("nas", lambda: rng.choice(("1", "2.5", "-3", "10e2", "0.001", "007", "1.50")))
-    maybe("t", lambda: rng.choice((0, 86400, 1700000000, 951782400, 1234567890)))
+    maybe("t", lambda: rng.choice((0, 86400, 1700000000, 951782400, 1234567890, 90.25, 90.5, 90.75, 90.5, 1700000000.125, 1700000000.875)))
     maybe("bools", lambda: [rng.random() < 0.6 for _ in range(rng.choice((0, 1, 2, 3)))], 0.7)
     maybe("lists", lambda: [[rng.choice((1, 2, 3)) for _ in range(rng.choice((0, 1, 2)))] for _ in range(rng.choice((0, 1, 2, 3)))], 0.7)
     maybe("tw", lambda: rng.choice(TWINS), 0.3)
@@ -178,7 +178,7 @@ class Gen:
                 return ("lit", r.choice((10000, 9999, 2 ** 32, 2 ** 63, 2 ** 64 - 1, 18446744073709551615)))
             return ("lit", r.choice((0, 0, 1, 1, 2, 3, 4, 5, 7, 10)))
         if kind == "epoch":
-            return ("lit", r.choice((0, 86400, 1700000000, 951782400, 1234567890, 4000000000, -1, 1.5, 253402300800, 2 ** 62,
+            return ("lit", r.choice((0, 86400, 1700000000, 951782400, 1234567890, 4000000000, -1, 1.5, 253402300800, 2 ** 62, 90.25, 90.5, 90.75,
                                      -86400, -1.5, -0.5, 0.25, -1234567890.125, 1700000000.875, -0.125, 59.5, -3600)))
         if kind == "str":
             if r.random() < self.nonascii:
@@ -319,6 +319,8 @@ class Gen:
         add("first", lambda g, sc, d: C(r.choice(("first", "last")), g(self.arr_of(kind))))
         add("fold", lambda g, sc, d: self.mk_fold(kind, sc, d))
         add("parse", lambda g, sc, d: C("parse", C("stringify", g(kind))))
+        # white space around a JSON text is not part of the value
+        add("parse", lambda g, sc, d: C("parse", C("concat", ("lit", r.choice(("", " ", "\n\t"))), C("stringify", g(kind)), ("lit", r.choice((" ", "\n", "\r\n", "\t ", ""))))))
         if self.allow_parse_selection:
             add("parse_selection", lambda g, sc, d: self.mk_parse_selection(kind, sc, d))
         add("as_" + self.as_name(kind), lambda g, sc, d: C("as_" + self.as_name(kind), g(kind if r.random() < 0.7 else "any")))
@@ -395,7 +397,9 @@ class Gen:
                 add("zip", lambda g, sc, d: C("zip", *[g(self.arr_kind()) for _ in range(r.choice((2, 2, 3, 4)))]) if r.random() < 0.5 else
                     C("cross", *[g(self.arr_kind()) for _ in range(r.choice((2, 2, 3)))]))
                 # many lists: the members of a row stay in the order of the lists (.0 .1 .2 ... .10 .11), whatever their number
-                add("zip", lambda g, sc, d: C(r.choice(("zip", "zip", "cross")), *[("lit", [r.choice((0, 1, "a", None, [2]))] * r.choice((1, 1, 1, 2, 0))) for _ in range(r.choice((10, 11, 12, 13)))]))
+                # (cross: at most three of the lists hold two elements, so a row set stays below a hundred rows)
+                add("zip", lambda g, sc, d: (lambda fn, n: C(fn, *[("lit", [r.choice((0, 1, "a", None, [2]))] * (r.choice((1, 1, 1, 2, 0)) if fn == "zip" or i < 3 else 1)) for i in range(n)]))(
+                    r.choice(("zip", "zip", "cross")), r.choice((10, 11, 12, 13))))
                 add('"sort_by"', lambda g, sc, d: C('"sort_by"', ("lit", [{"n": 1, "s": "10"}, {"n": 2, "s": "9"}, {"n": 3, "s": "1e1"}, {"n": 4, "s": "x"}]),
                                                     ("path", 0, (("k", "s"),))))
         if kind in ("obj", "any"):
